@@ -551,9 +551,15 @@ func emitPair(c *kit.Ctx, a, b *v1.NodePool, muts []string, class int, kf, comme
 		c.Count("mut:" + m)
 	}
 	sum := sha1.Sum([]byte(ga + "|" + gb))
-	c.AddCase(fmt.Sprintf("CasePair %s %s %s %s", ga, gb, expNames[class], kit.GBool(eq)),
-		pairJSON{Kind: "pair", Base: specJSON(a), Mutated: specJSON(b), Muts: muts, Expect: expNames[class], HashA: ha, HashB: hb, KfKey: kf, Comments: comment},
-		"pair:"+hex.EncodeToString(sum[:8]))
+	in := pairJSON{Kind: "pair", Base: specJSON(a), Mutated: specJSON(b), Muts: muts, Expect: expNames[class], HashA: ha, HashB: hb, KfKey: kf, Comments: comment}
+	id := c.AddCase(fmt.Sprintf("CasePair %s %s %s %s", ga, gb, expNames[class], kit.GBool(eq)), in, "pair:"+hex.EncodeToString(sum[:8]))
+	// the same oracle on the Go side, so that a concrete failing input is reported even when the Coq side does not build
+	if class == expSame && !eq {
+		c.Fail(id, fmt.Sprintf("NodePool.Hash() changed under %v, which only reorders lists/maps or edits documented non-drifting fields", muts), kf, in)
+	}
+	if class == expDiffer && eq {
+		c.Fail(id, fmt.Sprintf("NodePool.Hash() did not change under %v, which changes a hashed template field", muts), kf, in)
+	}
 }
 
 // randomPair: a generated pool, 1..k mutations, at most one of class Differ.
